@@ -125,7 +125,7 @@ func (c *Ctx) c04Sibling(fo *FO) {
 					}
 				case pw.EvRecv:
 					nBlock++
-					ok := cl.found && !spawned && ev.Field != nil && ev.Field.Name() == "lock" && ev.Key == cl.kl
+					ok := cl.found && !spawned && ev.Field != nil && fname(ev.Field) == "lock" && ev.Key == cl.kl
 					if !ok {
 						d, t := c.pathDetail(fo, p, "blocking receive that is not the waiter's wait on the found key lock: "+ev.String())
 						r.Bad("R04.3", cons, "foreign-recv", c.Pos(ev.Pos), d, t)
